@@ -202,3 +202,127 @@ class VennEval:
 
 
 _NO = object()
+
+
+# ---------------------------------------------------------------------------------------------
+# finite-domain constant folding of a *loop-free pure table function* (used for the 256-entry case-folding table only)
+import string as _string
+
+_STR_CONSTS = {"ascii_letters": _string.ascii_letters, "ascii_lowercase": _string.ascii_lowercase, "ascii_uppercase": _string.ascii_uppercase,
+               "digits": _string.digits, "hexdigits": _string.hexdigits, "whitespace": _string.whitespace, "punctuation": _string.punctuation}
+_STR_METHODS = {"index", "find", "isalpha", "isupper", "islower", "swapcase", "upper", "lower", "isdigit", "isascii"}
+
+
+class FoldError(Exception):
+    pass
+
+
+def fold_function(fn, args):
+    """Evaluate a loop-free function body (if/return/assign only) on concrete arguments. Raises FoldError outside the subset."""
+    params = [a.arg for a in fn.args.args]
+    env = dict(zip(params[-len(args):], args)) if args else {}
+
+    def block(stmts):
+        for st in stmts:
+            if isinstance(st, ast.Expr) and isinstance(st.value, ast.Constant):
+                continue
+            if isinstance(st, ast.Return):
+                return ("ret", expr(st.value) if st.value is not None else None)
+            if isinstance(st, ast.If):
+                r = block(st.body if expr(st.test) else st.orelse)
+                if r is not None:
+                    return r
+                continue
+            if isinstance(st, ast.Assign) and len(st.targets) == 1 and isinstance(st.targets[0], ast.Name):
+                env[st.targets[0].id] = expr(st.value)
+                continue
+            raise FoldError(f"statement {type(st).__name__} outside the table-function subset")
+        return None
+
+    def expr(n):
+        if isinstance(n, ast.Constant):
+            return n.value
+        if isinstance(n, ast.Name):
+            if n.id in env:
+                return env[n.id]
+            raise FoldError(f"free name {n.id}")
+        if isinstance(n, ast.Attribute) and isinstance(n.value, ast.Name) and n.value.id == "string" and n.attr in _STR_CONSTS:
+            return _STR_CONSTS[n.attr]
+        if isinstance(n, (ast.List, ast.Tuple)):
+            return [expr(e) for e in n.elts]
+        if isinstance(n, ast.BinOp):
+            l, r = expr(n.left), expr(n.right)
+            if isinstance(n.op, ast.Add):
+                return l + r
+            if isinstance(n.op, ast.Sub):
+                return l - r
+            if isinstance(n.op, ast.Mod):
+                return l % r
+            if isinstance(n.op, ast.Mult):
+                return l * r
+            if isinstance(n.op, ast.BitXor):
+                return l ^ r
+            if isinstance(n.op, ast.BitOr):
+                return l | r
+            if isinstance(n.op, ast.BitAnd):
+                return l & r
+            raise FoldError("operator")
+        if isinstance(n, ast.Compare) and len(n.ops) == 1:
+            l, r = expr(n.left), expr(n.comparators[0])
+            op = n.ops[0]
+            if isinstance(op, ast.In):
+                return l in r
+            if isinstance(op, ast.NotIn):
+                return l not in r
+            if isinstance(op, ast.Eq):
+                return l == r
+            if isinstance(op, ast.NotEq):
+                return l != r
+            if isinstance(op, ast.Lt):
+                return l < r
+            if isinstance(op, ast.LtE):
+                return l <= r
+            if isinstance(op, ast.Gt):
+                return l > r
+            if isinstance(op, ast.GtE):
+                return l >= r
+            raise FoldError("comparison")
+        if isinstance(n, ast.BoolOp):
+            vals = [expr(v) for v in n.values]
+            return all(vals) if isinstance(n.op, ast.And) else any(vals)
+        if isinstance(n, ast.UnaryOp) and isinstance(n.op, ast.Not):
+            return not expr(n.operand)
+        if isinstance(n, ast.IfExp):
+            return expr(n.body) if expr(n.test) else expr(n.orelse)
+        if isinstance(n, ast.Subscript):
+            v = expr(n.value)
+            if isinstance(n.slice, ast.Slice):
+                lo = expr(n.slice.lower) if n.slice.lower else None
+                hi = expr(n.slice.upper) if n.slice.upper else None
+                return v[lo:hi]
+            try:
+                return v[expr(n.slice)]
+            except (IndexError, KeyError) as e:
+                raise FoldError(f"subscript failed: {e!r}")
+        if isinstance(n, ast.Dict):
+            return {expr(k): expr(v) for k, v in zip(n.keys, n.values)}
+        if isinstance(n, ast.Call):
+            if isinstance(n.func, ast.Name) and n.func.id in ("len", "ord", "chr") and len(n.args) == 1:
+                a = expr(n.args[0])
+                return {"len": len, "ord": ord, "chr": chr}[n.func.id](a)
+            if isinstance(n.func, ast.Attribute) and n.func.attr in _STR_METHODS:
+                recv = expr(n.func.value)
+                if isinstance(recv, str):
+                    try:
+                        return getattr(recv, n.func.attr)(*[expr(a) for a in n.args])
+                    except ValueError as e:
+                        raise FoldError(f"str.{n.func.attr} failed: {e!r}")
+            if isinstance(n.func, ast.Attribute) and n.func.attr == "get":
+                recv = expr(n.func.value)
+                if isinstance(recv, dict):
+                    return recv.get(*[expr(a) for a in n.args])
+        raise FoldError(f"expression {ast.unparse(n)[:60]} outside the table-function subset")
+
+    from .srcmodel import strip_doc
+    r = block(strip_doc(fn.body))
+    return r[1] if r else None
